@@ -25,7 +25,7 @@ SPEC = {
              "or the program contains both a store and a load of the variable inside different control constructs."),
     "assumptions": ["vlib/defassign.py definite-assignment analysis (source-level control-flow paths)", "vlib/refeval.py for the run-time echo"],
     "min_evaluations": {"quick": 8000, "thorough": 80000},
-    "must_reach": ["must_reject_rejected", "clean_accepted", "in_sub", "in_main", "runtime_echo_runs", "mutated_random", "diamonds", "nested_loops"],
+    "must_reach": ["must_reject_rejected", "clean_accepted", "in_sub", "in_main", "runtime_echo_runs", "mutated_random", "diamonds", "nested_loops", "shared_subroutine_rejected", "shared_subroutine_accepted"],
     "shard_timeout": {"quick": 2400, "thorough": 14400},
 }
 
@@ -207,11 +207,79 @@ def judge(acc, recipe, version, mode, ss, origin, run_echo=True):
                 return
 
 
+def shared_subroutine_probe(pt, acc, rng):
+    """Whether a variable is local to a routine depends on the program being compiled: one subroutine object is compiled first in a
+    program where its read is legitimate (main stores the variable, so it is shared; or the variable lives in the frame) and then in
+    programs where the variable is local to the subroutine and read before any store - each of those must be rejected with the
+    load-before-store error, whatever was compiled before."""
+    from ..common import PT_ERRORS, reset_globals
+    reset_globals()
+    I = pt.Int
+    variant = rng.choice(["shared_with_main", "shared_with_main", "frame_then_scratch", "reject_accept_reject"])
+    guard = rng.random() < .5
+    v = pt.ScratchVar(pt.TealType.uint64)
+
+    def mk_reader():
+        def reader(n):
+            rd = v.load() + n
+            return pt.If(n > I(0)).Then(rd).Else(I(0)) if guard else rd
+        reader.__name__ = "reader"
+        return pt.Subroutine(pt.TealType.uint64)(reader)
+    reader = mk_reader()
+    good = lambda: pt.Seq(v.store(I(5)), reader(I(2)))         # noqa: E731  main stores v: shared, assumed initialised
+    bad = lambda: pt.Seq(pt.Pop(I(1)), reader(I(2)))           # noqa: E731  v is the subroutine's own, read before any store
+
+    @pt.ABIReturnSubroutine
+    def early(*, output: pt.abi.Uint64):
+        return pt.Seq(pt.Pop(output.get()), output.set(3))
+    x = pt.abi.Uint64()
+    abiprog = pt.Seq(early().store_into(x), x.get())
+    if variant == "frame_then_scratch":
+        steps = [("accept", abiprog, 8, None), ("reject", abiprog, rng.choice([6, 7]), None), ("reject", abiprog, 8, False), ("accept", abiprog, 10, None)]
+    elif variant == "reject_accept_reject":
+        steps = [("reject", bad(), 6, None), ("accept", good(), 6, None), ("reject", bad(), rng.choice([6, 8]), None)]
+    else:
+        steps = [("accept", good(), rng.choice([5, 6, 8]), None), ("reject", bad(), rng.choice([5, 6, 8, 10]), None), ("accept", good(), 6, None), ("reject", bad(), 6, None)]
+    case = {"probe": "shared_subroutine", "variant": variant, "guard": guard}
+    for i, (want, prog, version, fp) in enumerate(steps):
+        acc.evaluations += 1
+        opts = pt.OptimizeOptions(scratch_slots=False, frame_pointers=fp)
+        try:
+            pt.compileTeal(prog, pt.Mode.Application, version=version, optimize=opts)
+            err = None
+        except PT_ERRORS as e:
+            err = e
+        except Exception as e:
+            acc.counters["crashed:" + type(e).__name__] += 1
+            return
+        if want == "reject":
+            if err is None:
+                acc.violation("unassigned_load_accepted", dict(case, step=i), "step %d of %r: the subroutine's own variable is read before any store (version %d, frame_pointers=%s), but the program compiled after the same subroutine object had been compiled in a program where the read was legitimate"
+                              % (i, [w for w, _, _, _ in steps], version, fp))
+                return
+            cause = err.__cause__
+            if not (isinstance(cause, pt.TealCompileError) and "load occurs before store" in str(cause)):
+                acc.violation("error_without_offending_load", dict(case, step=i), "rejected with %r, cause %r" % (str(err)[:120], cause))
+                return
+            acc.counters["shared_subroutine_rejected"] += 1
+        else:
+            if err is not None:
+                acc.counters["shared_subroutine_over_rejected"] += 1
+            else:
+                acc.counters["shared_subroutine_accepted"] += 1
+
+
 def run_shard(shard):
     from ..common import Acc, rng_for
     acc = Acc()
     if "replay" in shard:
         c = shard["replay"]
+        if c.get("probe") == "shared_subroutine":
+            import pyteal as pt
+            import random
+            for k in range(40):
+                shared_subroutine_probe(pt, acc, random.Random(k))
+            return acc.result()
         judge(acc, c["recipe"], c["version"], c["mode"], c.get("scratch_slots", False), c.get("origin", "replay"))
         return acc.result()
     rng = rng_for(shard["seed"], "c17", shard["shard"])
@@ -257,6 +325,9 @@ def run_shard(shard):
         where = "sub" if (j // N) % 2 else "main"
         judge(acc, diamond_recipe(copy.deepcopy(body), where), [4, 6, 9][(j // N) % 3], "app", ss=bool((j // N) % 2), origin="diamond_" + ctxkind, run_echo=False)
         acc.counters["diamonds"] += 1
+    import pyteal as pt
+    for _ in range(12):
+        shared_subroutine_probe(pt, acc, rng)
     # ---- nested loops with jumps
     fam = nested_loop_family()
     for j, (tag, body) in enumerate(fam):
